@@ -122,3 +122,4 @@ theorem read_6_2 (l4 : Bytes) :
   simp [C22.assembleSkip, C22.foldParts, C22.Part.val, f0.ph, f1.ph, f2.ph, f3.ph, f4.ph, f5.ph, f6.ph, f7.ph, fw, -Nat.reducePow]
 end
 end MitmVerif.C21
+-- 
